@@ -1093,5 +1093,760 @@ theorem enableSketch_safe (p : Params) {s : SState} (h : Safe s) : Safe (enableS
   · exact h.of_eq rfl rfl rfl (Nat.le_refl _) rfl rfl
   · exact h
 
+/-! ### the sketch is touched only by `apply_reads` and `enable_frequency_sketch` -/
+
+/-- The sketch and its flag are unchanged. -/
+def SkSame (s s' : SState) : Prop := s'.sk = s.sk ∧ s'.skOn = s.skOn
+
+theorem SkSame.refl (s : SState) : SkSame s s := ⟨rfl, rfl⟩
+
+theorem SkSame.trans {a b c : SState} (h1 : SkSame a b) (h2 : SkSame b c) : SkSame a c :=
+  ⟨h2.1.trans h1.1, h2.2.trans h1.2⟩
+
+theorem skSame_fail (s : SState) (f : Fault) : SkSame s (s.fail f) := by
+  unfold SState.fail; split <;> exact ⟨rfl, rfl⟩
+
+theorem skSame_withInfo (s : SState) (i : Nat) (f : Info → Info) : SkSame s (withInfo s i f) :=
+  ⟨rfl, rfl⟩
+
+theorem skSame_erase (s : SState) (k : Nat) : SkSame s { s with map := AL.erase s.map k } :=
+  ⟨rfl, rfl⟩
+theorem skSame_set_prob (s : SState) (x : List AoNode) : SkSame s { s with prob := x } := ⟨rfl, rfl⟩
+theorem skSame_set_wo (s : SState) (x : List WoNode) : SkSame s { s with wo := x } := ⟨rfl, rfl⟩
+theorem skSame_set_cec (s : SState) (x : Nat) : SkSame s { s with cec := x } := ⟨rfl, rfl⟩
+theorem skSame_set_cws (s : SState) (x : Nat) : SkSame s { s with cws := x } := ⟨rfl, rfl⟩
+theorem skSame_set_cec_cws (s : SState) (x y : Nat) : SkSame s { s with cec := x, cws := y } :=
+  ⟨rfl, rfl⟩
+theorem skSame_set_writeQ (s : SState) (x : List WOp) : SkSame s { s with writeQ := x } :=
+  ⟨rfl, rfl⟩
+theorem skSame_push_ao (s : SState) (x : List AoNode) :
+    SkSame s { s with prob := x, nextId := s.nextId + 1 } := ⟨rfl, rfl⟩
+theorem skSame_push_wo (s : SState) (x : List WoNode) :
+    SkSame s { s with wo := x, nextId := s.nextId + 1 } := ⟨rfl, rfl⟩
+
+/-- Peels one layer off the target state, working backwards from the result. -/
+macro "sk_step" : tactic => `(tactic| first
+  | with_reducible exact SkSame.refl _
+  | exact skSame_fail _ _
+  | refine SkSame.trans ?_ (skSame_fail _ _)
+  | refine SkSame.trans ?_ (skSame_withInfo _ _ _)
+  | refine SkSame.trans ?_ (skSame_erase _ _)
+  | refine SkSame.trans ?_ (skSame_set_prob _ _)
+  | refine SkSame.trans ?_ (skSame_set_wo _ _)
+  | refine SkSame.trans ?_ (skSame_set_cec _ _)
+  | refine SkSame.trans ?_ (skSame_set_cws _ _)
+  | refine SkSame.trans ?_ (skSame_set_cec_cws _ _ _)
+  | refine SkSame.trans ?_ (skSame_set_writeQ _ _)
+  | refine SkSame.trans ?_ (skSame_push_ao _ _)
+  | refine SkSame.trans ?_ (skSame_push_wo _ _))
+
+theorem moveNodeToBackAo_sk (s : SState) (id : Nat) : SkSame s (moveNodeToBackAo s id) := by
+  unfold moveNodeToBackAo; split <;> repeat sk_step
+
+theorem moveNodeToBackWo_sk (s : SState) (id : Nat) : SkSame s (moveNodeToBackWo s id) := by
+  unfold moveNodeToBackWo; split <;> repeat sk_step
+
+theorem moveToBackAoE_sk (s : SState) (i : Nat) : SkSame s (moveToBackAoE s i) := by
+  unfold moveToBackAoE; split
+  · exact SkSame.refl s
+  · exact moveNodeToBackAo_sk s _
+
+theorem moveToBackWoE_sk (s : SState) (i : Nat) : SkSame s (moveToBackWoE s i) := by
+  unfold moveToBackWoE; split
+  · exact SkSame.refl s
+  · exact moveNodeToBackWo_sk s _
+
+theorem unlinkAo_sk (s : SState) (i : Nat) : SkSame s (unlinkAo s i) := by
+  unfold unlinkAo; split
+  · exact SkSame.refl s
+  · dsimp only; split <;> repeat sk_step
+
+theorem unlinkWo_sk (s : SState) (i : Nat) : SkSame s (unlinkWo s i) := by
+  unfold unlinkWo; split
+  · exact SkSame.refl s
+  · dsimp only; split <;> repeat sk_step
+
+theorem subCounters_sk (s : SState) (n w : Nat) : SkSame s (subCounters s n w) := by
+  unfold subCounters
+  dsimp only
+  split <;> repeat sk_step
+
+theorem addCounters_sk (s : SState) (n w : Nat) : SkSame s (addCounters s n w) := ⟨rfl, rfl⟩
+
+theorem handleRemove_sk (s : SState) (ve : VE) : SkSame s (handleRemove s ve) := by
+  unfold handleRemove
+  dsimp only
+  split
+  · refine SkSame.trans ?_ (unlinkWo_sk _ _)
+    refine SkSame.trans ?_ (unlinkAo_sk _ _)
+    refine SkSame.trans ?_ (subCounters_sk _ _ _)
+    repeat sk_step
+  · repeat sk_step
+
+theorem handleAdmit_sk (p : Params) (s : SState) (key : Nat) (hash : UInt64) (ve : VE)
+    (w : Nat) : SkSame s (handleAdmit p s key hash ve w) := by
+  unfold handleAdmit
+  dsimp only
+  sk_step
+  split
+  · sk_step
+    sk_step
+    sk_step
+    sk_step
+    split
+    · exact addCounters_sk _ _ _
+    · sk_step
+      exact addCounters_sk _ _ _
+  · sk_step
+    sk_step
+    split
+    · exact addCounters_sk _ _ _
+    · sk_step
+      exact addCounters_sk _ _ _
+
+theorem removeVictims_sk (p : Params) (vs : List AoNode) :
+    ∀ (s : SState) (sk : List AoNode), SkSame s (removeVictims p vs s sk).1 := by
+  induction vs with
+  | nil => intro s sk; exact SkSame.refl s
+  | cons v rest ih =>
+    intro s sk
+    unfold removeVictims
+    split
+    · exact (skSame_fail s _).trans (ih _ _)
+    · split
+      · refine SkSame.trans ?_ (ih _ _)
+        refine SkSame.trans ?_ (handleRemove_sk _ _)
+        exact ⟨rfl, rfl⟩
+      · exact ih _ _
+
+theorem moveSkipped_sk (ns : List AoNode) : ∀ (s : SState), SkSame s (moveSkipped ns s) := by
+  induction ns with
+  | nil => intro s; exact SkSame.refl s
+  | cons n rest ih => intro s; exact (moveNodeToBackAo_sk s n.id).trans (ih _)
+
+theorem removeCandidate_sk (p : Params) (s : SState) (key : Nat) (ve : VE) :
+    SkSame s (removeCandidate p s key ve) := by
+  unfold removeCandidate
+  split
+  · split
+    · exact ⟨rfl, rfl⟩
+    · exact SkSame.refl s
+  · exact SkSame.refl s
+
+theorem applyUpdate_sk (p : Params) (s : SState) (ve : VE) (oldW newW : Nat) :
+    SkSame s (applyUpdate p s ve oldW newW) := by
+  unfold applyUpdate
+  dsimp only
+  refine SkSame.trans ?_ (moveToBackWoE_sk _ _)
+  refine SkSame.trans ?_ (moveToBackAoE_sk _ _)
+  split
+  · refine SkSame.trans ?_ (addCounters_sk _ _ _)
+    exact subCounters_sk _ _ _
+  · sk_step
+    refine SkSame.trans ?_ (addCounters_sk _ _ _)
+    exact subCounters_sk _ _ _
+
+theorem admitOrReject_sk (p : Params) (s : SState) (key : Nat) (hash : UInt64) (ve : VE)
+    (newW : Nat) : SkSame s (admitOrReject p s key hash ve newW) := by
+  unfold admitOrReject
+  dsimp only
+  split
+  · refine SkSame.trans ?_ (moveSkipped_sk _ _)
+    refine SkSame.trans ?_ (handleAdmit_sk _ _ _ _ _ _)
+    exact removeVictims_sk _ _ _ _
+  · refine SkSame.trans ?_ (moveSkipped_sk _ _)
+    exact removeCandidate_sk _ _ _ _
+
+theorem handleUpsert_sk (p : Params) (s : SState) (key : Nat) (hash : UInt64) (ve : VE)
+    (oldW newW : Nat) : SkSame s (handleUpsert p s key hash ve oldW newW) := by
+  unfold handleUpsert
+  dsimp only
+  generalize currentWeight p s key ve newW = nw
+  refine SkSame.trans (skSame_withInfo s ve.info (fun i => { i with dirty := false })) ?_
+  generalize withInfo s ve.info (fun i => { i with dirty := false }) = s1
+  by_cases h1 : (getInfo s1 ve.info).admitted = true
+  · rw [if_pos h1]; exact applyUpdate_sk _ _ _ _ _
+  · rw [if_neg h1]
+    by_cases h2 : (!p.q.d7 && !isCurrentEntry s1 key ve) = true
+    · rw [if_pos h2]; exact SkSame.refl _
+    · rw [if_neg h2]
+      by_cases h3 : hasEnoughCapacity p nw s1 = true
+      · rw [if_pos h3]; exact handleAdmit_sk _ _ _ _ _ _
+      · rw [if_neg h3]
+        by_cases h4 : tooBig p nw = true
+        · rw [if_pos h4]; exact removeCandidate_sk _ _ _ _
+        · rw [if_neg h4]; exact admitOrReject_sk _ _ _ _ _ _
+
+theorem applyWrite_sk (p : Params) (s : SState) (op : WOp) : SkSame s (applyWrite p s op) := by
+  cases op with
+  | upsert key hash ve oldW newW => exact handleUpsert_sk _ _ _ _ _ _ _
+  | remove key ve => exact handleRemove_sk _ _
+
+theorem applyWrites_sk (p : Params) (n : Nat) : ∀ (s : SState), SkSame s (applyWrites p n s) := by
+  induction n with
+  | zero => intro s; exact SkSame.refl s
+  | succ n ih =>
+    intro s
+    unfold applyWrites
+    split
+    · exact SkSame.refl s
+    · refine SkSame.trans ?_ (ih _)
+      refine SkSame.trans ?_ (applyWrite_sk _ _ _)
+      exact ⟨rfl, rfl⟩
+
+theorem trySkipUpdated_sk (s : SState) (key : Nat) : SkSame s (trySkipUpdated s key).1 := by
+  unfold trySkipUpdated
+  split
+  · split
+    · exact (moveToBackAoE_sk _ _).trans (moveToBackWoE_sk _ _)
+    · exact SkSame.refl s
+  · split
+    · exact moveNodeToBackAo_sk _ _
+    · exact SkSame.refl s
+
+theorem removeExpiredAo_sk (p : Params) (n : Nat) :
+    ∀ (s : SState), SkSame s (removeExpiredAo p n s) := by
+  induction n with
+  | zero => intro s; exact SkSame.refl s
+  | succ n ih =>
+    intro s
+    unfold removeExpiredAo
+    split
+    · exact SkSame.refl s
+    · split
+      · dsimp only
+        split
+        · refine SkSame.trans ?_ (ih _)
+          refine SkSame.trans ?_ (handleRemove_sk _ _)
+          exact ⟨rfl, rfl⟩
+        · split
+          · exact (trySkipUpdated_sk s _).trans (ih _)
+          · exact trySkipUpdated_sk s _
+      · exact SkSame.refl s
+
+theorem removeExpiredWo_sk (p : Params) (n : Nat) :
+    ∀ (s : SState), SkSame s (removeExpiredWo p n s) := by
+  induction n with
+  | zero => intro s; exact SkSame.refl s
+  | succ n ih =>
+    intro s
+    unfold removeExpiredWo
+    split
+    · exact SkSame.refl s
+    · split
+      · dsimp only
+        split
+        · refine SkSame.trans ?_ (ih _)
+          refine SkSame.trans ?_ (handleRemove_sk _ _)
+          exact ⟨rfl, rfl⟩
+        · split
+          · split
+            · exact ((moveToBackAoE_sk _ _).trans (moveToBackWoE_sk _ _)).trans (ih _)
+            · exact SkSame.refl s
+          · exact (moveNodeToBackWo_sk _ _).trans (ih _)
+      · exact SkSame.refl s
+
+theorem evictExpired_sk (p : Params) (s : SState) : SkSame s (evictExpired p s) := by
+  unfold evictExpired
+  dsimp only
+  split
+  · split
+    · exact (removeExpiredWo_sk _ _ _).trans (removeExpiredAo_sk _ _ _)
+    · exact removeExpiredWo_sk _ _ _
+  · split
+    · exact removeExpiredAo_sk _ _ _
+    · exact SkSame.refl s
+
+theorem evictLruLoop_sk (p : Params) (n : Nat) :
+    ∀ (s : SState) (wte ev : Nat), SkSame s (evictLruLoop p n s wte ev) := by
+  induction n with
+  | zero => intro s _ _; exact SkSame.refl s
+  | succ n ih =>
+    intro s wte ev
+    unfold evictLruLoop
+    split
+    · exact SkSame.refl s
+    · split
+      · exact SkSame.refl s
+      · dsimp only
+        split
+        · split
+          · exact (trySkipUpdated_sk s _).trans (ih _ _ _)
+          · exact trySkipUpdated_sk s _
+        · split
+          · refine SkSame.trans ?_ (ih _ _ _)
+            refine SkSame.trans ?_ (handleRemove_sk _ _)
+            exact ⟨rfl, rfl⟩
+          · split
+            · exact (trySkipUpdated_sk s _).trans (ih _ _ _)
+            · exact trySkipUpdated_sk s _
+
+/-! ### the sketch predicate -/
+
+/-- The sketch satisfies the abstract predicate `P` and is still the initial (empty) one as
+long as it has not been enabled. -/
+structure SkOK (P : Sketch → Prop) (s : SState) : Prop where
+  sk : P s.sk
+  skOff : s.skOn = false → s.sk = {}
+
+theorem SkOK.same {P : Sketch → Prop} {s s' : SState} (h : SkOK P s) (hs : SkSame s s') :
+    SkOK P s' :=
+  ⟨by rw [hs.1]; exact h.sk, fun ho => by rw [hs.1]; exact h.skOff (by rw [← hs.2]; exact ho)⟩
+
+theorem sketchIncrement_spec {P : Sketch → Prop} (L : SketchLaws P) {p : Params} (hq : NoQuirks p)
+    {s : SState} (hsk : P s.sk) (h : UInt64) :
+    ∃ sk', sketchIncrement p s h = { s with sk := sk' } ∧ P sk' ∧ (s.sk = {} → sk' = {}) := by
+  have hd5 : p.q.d5 = false := by rw [hq]
+  obtain ⟨sk', h1, h2⟩ := L.incr s.sk h hsk
+  refine ⟨sk', by simp [sketchIncrement, hd5, h1], h2, ?_⟩
+  intro h0
+  rw [h0, L.incrDefault h] at h1
+  cases h1; rfl
+
+theorem sketchIncrement_inv {P : Sketch → Prop} (L : SketchLaws P) {p : Params} (hq : NoQuirks p)
+    {s : SState} (h : Safe s) (hk : SkOK P s) (x : UInt64) :
+    Safe (sketchIncrement p s x) ∧ SkOK P (sketchIncrement p s x) := by
+  obtain ⟨sk', e, h1, h2⟩ := sketchIncrement_spec L hq hk.sk x
+  rw [e]
+  exact ⟨h.of_eq rfl rfl rfl (Nat.le_refl _) rfl rfl, h1, fun ho => h2 (hk.skOff ho)⟩
+
+theorem enableSketch_skOK {P : Sketch → Prop} (L : SketchLaws P) {p : Params}
+    (hsm : SmallSketch p) {s : SState} (hk : SkOK P s) (hen : shouldEnableSketch p s = true) :
+    SkOK P (enableSketch p s) := by
+  have hoff : s.skOn = false := by
+    unfold shouldEnableSketch at hen
+    cases h : s.skOn with
+    | false => rfl
+    | true => simp [h] at hen
+  have hsk0 := hk.skOff hoff
+  unfold enableSketch
+  cases hc : p.cap with
+  | none => exact hk
+  | some maxCap =>
+    refine ⟨?_, fun h => by simp at h⟩
+    simp only
+    rw [hsk0]
+    apply L.ensure
+    split
+    · exact hsm.cap maxCap hc
+    · exact hsm.capF _ _ _
+
+/-! ### `apply_reads` and the maintenance run -/
+
+theorem applyRead_inv {P : Sketch → Prop} (L : SketchLaws P) {p : Params} (hq : NoQuirks p)
+    {s : SState} (h : Safe s) (hk : SkOK P s) (op : ROp) :
+    Safe (applyRead p s op) ∧ SkOK P (applyRead p s op) := by
+  have hd6 : p.q.d6 = false := by rw [hq]
+  cases op with
+  | miss hash => exact sketchIncrement_inv L hq h hk hash
+  | hit hash ve ts =>
+    unfold applyRead
+    simp only [hd6, Bool.false_eq_true, if_false]
+    obtain ⟨h1, k1⟩ := sketchIncrement_inv L hq h hk hash
+    generalize sketchIncrement p s hash = s1 at h1 k1 ⊢
+    have h2 : Safe (if (getInfo s1 ve.info).la < ts
+        then withInfo s1 ve.info (fun i => { i with la := ts }) else s1) ∧
+        SkOK P (if (getInfo s1 ve.info).la < ts
+        then withInfo s1 ve.info (fun i => { i with la := ts }) else s1) := by
+      split
+      · exact ⟨h1.withInfo _ _ rfl rfl rfl, k1.same (skSame_withInfo _ _ _)⟩
+      · exact ⟨h1, k1⟩
+    generalize (if (getInfo s1 ve.info).la < ts
+        then withInfo s1 ve.info (fun i => { i with la := ts }) else s1) = s2 at h2 ⊢
+    split
+    · exact ⟨(moveToBackAoE_safe h2.1 _).1, h2.2.same (moveToBackAoE_sk _ _)⟩
+    · exact h2
+
+theorem applyReads_inv {P : Sketch → Prop} (L : SketchLaws P) {p : Params} (hq : NoQuirks p)
+    (n : Nat) : ∀ (s : SState), Safe s → SkOK P s →
+      Safe (applyReads p n s) ∧ SkOK P (applyReads p n s) := by
+  induction n with
+  | zero => intro s h hk; exact ⟨h, hk⟩
+  | succ n ih =>
+    intro s h hk
+    unfold applyReads
+    split
+    · exact ⟨h, hk⟩
+    · rename_i op rest _
+      have h0 : Safe { s with readQ := rest } := h.of_eq rfl rfl rfl (Nat.le_refl _) rfl rfl
+      have k0 : SkOK P { s with readQ := rest } := ⟨hk.sk, hk.skOff⟩
+      obtain ⟨h1, k1⟩ := applyRead_inv L hq h0 k0 op
+      exact ih _ h1 k1
+
+/-- What a maintenance run maintains. -/
+structure RunInv (P : Sketch → Prop) (s : SState) : Prop where
+  safe : Safe s
+  map : MapOK s
+  sk : SkOK P s
+
+theorem syncLoop_inv {P : Sketch → Prop} (L : SketchLaws P) {p : Params} (hq : NoQuirks p)
+    (hsm : SmallSketch p) (n : Nat) :
+    ∀ (s : SState), RunInv P s → RunInv P (syncLoop p n s) := by
+  induction n with
+  | zero => intro s h; exact h
+  | succ n ih =>
+    intro s h
+    unfold syncLoop
+    dsimp only
+    have h1 : RunInv P (if s.readQ.length > 0 then applyReads p s.readQ.length s else s) := by
+      split
+      · obtain ⟨a, b⟩ := applyReads_inv L hq s.readQ.length s h.safe h.sk
+        exact ⟨a, h.map.frame (applyReads_frame hq _ _), b⟩
+      · exact h
+    generalize (if s.readQ.length > 0 then applyReads p s.readQ.length s else s) = s1 at h1 ⊢
+    have h2 : RunInv P (if s1.writeQ.length > 0 then applyWrites p s1.writeQ.length s1 else s1) := by
+      split
+      · exact ⟨applyWrites_safe hq _ _ h1.safe h1.map, h1.map.frame0 (applyWrites_frame0 _ _ _),
+          h1.sk.same (applyWrites_sk _ _ _)⟩
+      · exact h1
+    generalize (if s1.writeQ.length > 0 then applyWrites p s1.writeQ.length s1 else s1) = s2
+      at h2 ⊢
+    have h3 : RunInv P (if shouldEnableSketch p s2 = true then enableSketch p s2 else s2) := by
+      split
+      · rename_i hen
+        exact ⟨enableSketch_safe p h2.safe, h2.map.frame0 (enableSketch_frame0 _ _),
+          enableSketch_skOK L hsm h2.sk hen⟩
+      · exact h2
+    generalize (if shouldEnableSketch p s2 = true then enableSketch p s2 else s2) = s3 at h3 ⊢
+    split
+    · exact ih _ h3
+    · exact h3
+
+/-! ### between operations -/
+
+/-- What holds between the operations of the public API, whether or not the state is
+faulty. -/
+structure TopCore (P : Sketch → Prop) (s : SState) : Prop where
+  nodes : NodesInvTop s
+  map : MapOK s
+  sk : SkOK P s
+
+/-- The invariant of fault-free states between operations. -/
+structure TopInv (P : Sketch → Prop) (s : SState) : Prop extends TopCore P s where
+  nofault : s.fault = none
+
+theorem TopCore.of_eq {P : Sketch → Prop} {s s' : SState} (h : TopCore P s)
+    (hi : s'.infos = s.infos) (hp : s'.prob = s.prob) (hw : s'.wo = s.wo)
+    (hn : s'.nextId = s.nextId) (hc : s'.ec = s.ec) (hm : s'.map = s.map)
+    (hsk : s'.sk = s.sk) (hon : s'.skOn = s.skOn) : TopCore P s' := by
+  have hg : ∀ j, getInfo s' j = getInfo s j := getInfo_congr hi
+  refine ⟨⟨h.nodes.toNodesCore.congr (fun j => by rw [hg]) (fun j => by rw [hg])
+    (fun j => by rw [hg]) (by rw [hp]) (by rw [hw]) (by rw [hn]; exact Nat.le_refl _), ?_⟩,
+    ⟨?_, ?_⟩, h.sk.same ⟨hsk, hon⟩⟩
+  · rw [hc, hp]; exact h.nodes.count
+  · rw [hm]; exact h.map.kn
+  · rw [hm, hn]; exact h.map.bound
+
+theorem TopInv.of_eq {P : Sketch → Prop} {s s' : SState} (h : TopInv P s)
+    (hi : s'.infos = s.infos) (hp : s'.prob = s.prob) (hw : s'.wo = s.wo)
+    (hn : s'.nextId = s.nextId) (hc : s'.ec = s.ec) (hm : s'.map = s.map)
+    (hsk : s'.sk = s.sk) (hon : s'.skOn = s.skOn) (hf : s'.fault = s.fault) : TopInv P s' :=
+  ⟨h.toTopCore.of_eq hi hp hw hn hc hm hsk hon, by rw [hf]; exact h.nofault⟩
+
+theorem TopCore.fail {P : Sketch → Prop} {s : SState} (h : TopCore P s) (f : Fault) :
+    TopCore P (s.fail f) := by
+  unfold SState.fail
+  split
+  · exact h
+  · exact h.of_eq rfl rfl rfl rfl rfl rfl rfl rfl
+
+theorem syncRun_inv {P : Sketch → Prop} (L : SketchLaws P) {p : Params} (hq : NoQuirks p)
+    (hsm : SmallSketch p) {s : SState} (h : TopInv P s) : TopInv P (syncRun p s) := by
+  unfold syncRun
+  dsimp only
+  have h0 : RunInv P { s with cec := s.ec, cws := s.ws } :=
+    ⟨⟨⟨h.nodes.toNodesCore.congr (fun _ => rfl) (fun _ => rfl) (fun _ => rfl) (List.Perm.refl _)
+        (List.Perm.refl _) (Nat.le_refl _), h.nodes.count⟩, h.nofault⟩,
+     ⟨h.map.kn, h.map.bound⟩, ⟨h.sk.sk, h.sk.skOff⟩⟩
+  have h1 := syncLoop_inv L hq hsm (Gen.MAX_SYNC_REPEATS + 1) _ h0
+  generalize syncLoop p (Gen.MAX_SYNC_REPEATS + 1) { s with cec := s.ec, cws := s.ws } = s1
+    at h1 ⊢
+  have h2 : RunInv P (if (p.hasExpiry || s1.va.isSome) = true then evictExpired p s1 else s1) := by
+    split
+    · exact ⟨evictExpired_safe p h1.safe, h1.map.frame0 (evictExpired_frame0 _ _),
+        h1.sk.same (evictExpired_sk _ _)⟩
+    · exact h1
+  generalize (if (p.hasExpiry || s1.va.isSome) = true then evictExpired p s1 else s1) = s2
+    at h2 ⊢
+  have h3 : RunInv P (if weightsToEvict p s2 > 0
+      then evictLruLoop p Gen.SYNC_EVICTION_BATCH_SIZE s2 (weightsToEvict p s2) 0 else s2) := by
+    split
+    · exact ⟨evictLruLoop_safe p _ _ _ _ h2.safe, h2.map.frame0 (evictLruLoop_frame0 _ _ _ _ _),
+        h2.sk.same (evictLruLoop_sk _ _ _ _ _)⟩
+    · exact h2
+  generalize (if weightsToEvict p s2 > 0
+      then evictLruLoop p Gen.SYNC_EVICTION_BATCH_SIZE s2 (weightsToEvict p s2) 0 else s2) = s3
+    at h3 ⊢
+  exact ⟨⟨⟨h3.safe.toNodesCore.congr (fun _ => rfl) (fun _ => rfl) (fun _ => rfl)
+      (List.Perm.refl _) (List.Perm.refl _) (Nat.le_refl _), h3.safe.count⟩,
+    ⟨h3.map.kn, h3.map.bound⟩, ⟨h3.sk.sk, h3.sk.skOff⟩⟩, h3.safe.nofault⟩
+
+theorem trySync_inv {P : Sketch → Prop} (L : SketchLaws P) {p : Params} (hq : NoQuirks p)
+    (hsm : SmallSketch p) {s : SState} (h : TopInv P s) : TopInv P (trySync p s) := by
+  unfold trySync
+  split
+  · exact h
+  · dsimp only
+    have h0 : ∀ a, TopInv P { s with running := true, syncAfter := a } :=
+      fun a => h.of_eq rfl rfl rfl rfl rfl rfl rfl rfl rfl
+    exact (syncRun_inv L hq hsm (h0 _)).of_eq rfl rfl rfl rfl rfl rfl rfl rfl rfl
+
+/-- `schedule_write_op` keeps the invariant; the only fault it can raise is `hang`. -/
+theorem scheduleWriteOp_inv {P : Sketch → Prop} (L : SketchLaws P) {p : Params} (hq : NoQuirks p)
+    (hsm : SmallSketch p) (n : Nat) : ∀ (s : SState) (op : WOp), TopInv P s →
+      TopCore P (scheduleWriteOp p n s op) ∧
+        ((scheduleWriteOp p n s op).fault = none ∨
+          (scheduleWriteOp p n s op).fault = some .hang) := by
+  induction n with
+  | zero =>
+    intro s op h
+    refine ⟨h.toTopCore.fail _, Or.inr ?_⟩
+    simp [scheduleWriteOp, SState.fail, h.nofault]
+  | succ n ih =>
+    intro s op h
+    unfold scheduleWriteOp
+    dsimp only
+    have h1 : TopInv P (if shouldApply s s.writeQ.length Gen.WRITE_LOG_FLUSH_POINT = true
+        then trySync p s else s) := by
+      split
+      · exact trySync_inv L hq hsm h
+      · exact h
+    generalize (if shouldApply s s.writeQ.length Gen.WRITE_LOG_FLUSH_POINT = true
+        then trySync p s else s) = s1 at h1 ⊢
+    split
+    · have h2 : TopInv P { s1 with writeQ := s1.writeQ ++ [op] } :=
+        h1.of_eq rfl rfl rfl rfl rfl rfl rfl rfl rfl
+      exact ⟨h2.toTopCore, Or.inl h2.nofault⟩
+    · exact ih _ _ h1
+
+theorem recordReadOp_inv {P : Sketch → Prop} (L : SketchLaws P) {p : Params} (hq : NoQuirks p)
+    (hsm : SmallSketch p) {s : SState} (h : TopInv P s) (op : ROp) :
+    TopInv P (recordReadOp p s op) := by
+  unfold recordReadOp
+  dsimp only
+  have h1 : TopInv P (if shouldApply s s.readQ.length Gen.READ_LOG_FLUSH_POINT = true
+      then trySync p s else s) := by
+    split
+    · exact trySync_inv L hq hsm h
+    · exact h
+  generalize (if shouldApply s s.readQ.length Gen.READ_LOG_FLUSH_POINT = true
+      then trySync p s else s) = s1 at h1 ⊢
+  split
+  · exact h1.of_eq rfl rfl rfl rfl rfl rfl rfl rfl rfl
+  · exact h1
+
+/-! ### the public API -/
+
+theorem TopInv.withInfo {P : Sketch → Prop} {s : SState} (h : TopInv P s) (i : Nat)
+    (f : Info → Info) (hao : (f (getInfo s i)).ao = (getInfo s i).ao)
+    (hwo : (f (getInfo s i)).wo = (getInfo s i).wo)
+    (had : (f (getInfo s i)).admitted = (getInfo s i).admitted) : TopInv P (withInfo s i f) := by
+  refine ⟨⟨⟨h.nodes.toNodesCore.congr ?_ ?_ ?_ (List.Perm.refl _) (List.Perm.refl _)
+    (Nat.le_refl _), h.nodes.count⟩, ⟨h.map.kn, h.map.bound⟩, ⟨h.sk.sk, h.sk.skOff⟩⟩, h.nofault⟩ <;>
+    intro j <;> rw [getInfo_withInfo] <;> by_cases e : i = j
+  · subst e; simp [hao]
+  · simp [e]
+  · subst e; simp [hwo]
+  · simp [e]
+  · subst e; simp [had]
+  · simp [e]
+
+theorem mapOK_put {s : SState} (h : MapOK s) (k : Nat) (ve : VE) (n : Nat)
+    (hve : ve.info < n) (hn : s.nextId ≤ n) (m : List (Nat × VE)) (hm : m = AL.put s.map k ve)
+    {s' : SState} (hs'm : s'.map = m) (hs'n : s'.nextId = n) : MapOK s' := by
+  refine ⟨?_, ?_⟩
+  · rw [hs'm, hm]; exact AL.nodup_put k ve h.kn
+  · intro k' ve' hk
+    rw [hs'm, hm, AL.get?_put] at hk
+    rw [hs'n]
+    by_cases e : k = k'
+    · rw [if_pos e] at hk; cases hk; exact hve
+    · rw [if_neg e] at hk; exact Nat.lt_of_lt_of_le (h.bound k' ve' hk) hn
+
+theorem insert_inv {P : Sketch → Prop} (L : SketchLaws P) {p : Params} (hq : NoQuirks p)
+    (hsm : SmallSketch p) {s : SState} (h : TopInv P s) (k v : Nat) :
+    TopCore P (insert p s k v) ∧
+      ((insert p s k v).fault = none ∨ (insert p s k v).fault = some .hang) := by
+  unfold insert
+  dsimp only
+  split
+  · rename_i old hg
+    have hold := h.map.bound k old hg
+    have h1 : TopInv P (refreshInfo p s old.info s.now (p.weigh k v)) :=
+      h.withInfo _ _ rfl rfl rfl
+    have hm1 : (refreshInfo p s old.info s.now (p.weigh k v)).map = s.map := rfl
+    have hn1 : (refreshInfo p s old.info s.now (p.weigh k v)).nextId = s.nextId := rfl
+    generalize refreshInfo p s old.info s.now (p.weigh k v) = s1 at h1 hm1 hn1 ⊢
+    apply scheduleWriteOp_inv L hq hsm
+    refine ⟨⟨⟨h1.nodes.toNodesCore.congr (fun _ => rfl) (fun _ => rfl) (fun _ => rfl)
+      (List.Perm.refl _) (List.Perm.refl _) (Nat.le_succ _), h1.nodes.count⟩, ?_,
+      ⟨h1.sk.sk, h1.sk.skOff⟩⟩, h1.nofault⟩
+    exact mapOK_put h1.map k _ (s1.nextId + 1) (by simp only; rw [hn1]; omega) (Nat.le_succ _) _
+      rfl rfl rfl
+  · rename_i hg
+    apply scheduleWriteOp_inv L hq hsm
+    have hna := h.nodes.infoFresh s.nextId (Nat.le_refl _)
+    have hao := h.nodes.toNodesCore.notAdm_ao hna
+    have hwo := h.nodes.toNodesCore.notAdm_wo hna
+    refine ⟨⟨⟨h.nodes.toNodesCore.congr ?_ ?_ ?_ (List.Perm.refl _) (List.Perm.refl _)
+      (Nat.le_add_right _ 2), h.nodes.count⟩, ?_, ⟨h.sk.sk, h.sk.skOff⟩⟩, h.nofault⟩
+    · intro j
+      simp only [getInfo, AL.get?_put]
+      by_cases e : s.nextId = j
+      · subst e; simp only [if_true, Option.getD_some]; exact hao.symm
+      · simp only [e, if_false]
+    · intro j
+      simp only [getInfo, AL.get?_put]
+      by_cases e : s.nextId = j
+      · subst e; simp only [if_true, Option.getD_some]; exact hwo.symm
+      · simp only [e, if_false]
+    · intro j
+      simp only [getInfo, AL.get?_put]
+      by_cases e : s.nextId = j
+      · subst e; simp only [if_true, Option.getD_some]; exact hna.symm
+      · simp only [e, if_false]
+    · exact mapOK_put h.map k _ (s.nextId + 2) (by simp only; omega) (Nat.le_add_right _ 2) _
+        rfl rfl rfl
+
+theorem get_inv {P : Sketch → Prop} (L : SketchLaws P) {p : Params} (hq : NoQuirks p)
+    (hsm : SmallSketch p) {s : SState} (h : TopInv P s) (k : Nat) : TopInv P (get p s k).1 := by
+  unfold get
+  dsimp only
+  split
+  · exact recordReadOp_inv L hq hsm h _
+  · split
+    · exact recordReadOp_inv L hq hsm h _
+    · exact recordReadOp_inv L hq hsm h _
+
+theorem invalidate_inv {P : Sketch → Prop} (L : SketchLaws P) {p : Params} (hq : NoQuirks p)
+    (hsm : SmallSketch p) {s : SState} (h : TopInv P s) (k : Nat) :
+    TopCore P (invalidate p s k) ∧
+      ((invalidate p s k).fault = none ∨ (invalidate p s k).fault = some .hang) := by
+  unfold invalidate
+  split
+  · exact ⟨h.toTopCore, Or.inl h.nofault⟩
+  · dsimp only
+    apply scheduleWriteOp_inv L hq hsm
+    exact ⟨⟨⟨h.nodes.toNodesCore.congr (fun _ => rfl) (fun _ => rfl) (fun _ => rfl)
+      (List.Perm.refl _) (List.Perm.refl _) (Nat.le_refl _), h.nodes.count⟩,
+      h.map.frame0 (frame0_erase s k), ⟨h.sk.sk, h.sk.skOff⟩⟩, h.nofault⟩
+
+/-! ### steps and traces -/
+
+/-- An observation that is not an internal panic, except possibly `hang` (the retry loop of
+`schedule_write_op`, treated in `Lemmas/SyncQueues.lean`). -/
+def okObs : Obs → Bool
+  | .panic .hang => true
+  | .panic _ => false
+  | _ => true
+
+/-- No observation of the trace is `useAfterFree`, `overflow`, `expect`, `unreachable` or
+`notMember` (or a builder panic). -/
+def noPanicButHang (t : List (Op × Obs)) : Bool := t.all fun x => okObs x.2
+
+theorem init_inv {P : Sketch → Prop} (L : SketchLaws P) : TopInv P {} := by
+  have hg : ∀ i, getInfo {} i = {} := fun _ => rfl
+  refine ⟨⟨⟨⟨?_, ?_, ?_, ?_, ?_, ?_, ?_, ?_, ?_, ?_, ?_⟩, rfl⟩, ⟨?_, ?_⟩, ⟨L.init, fun _ => rfl⟩⟩, rfl⟩
+  · exact List.nodup_nil
+  · exact List.nodup_nil
+  · intro n hn; cases hn
+  · intro n hn; cases hn
+  · intro n hn; cases hn
+  · intro i id hx; rw [hg] at hx; cases hx
+  · intro i; rw [hg]; simp
+  · intro n hn; cases hn
+  · intro i id hx; rw [hg] at hx; cases hx
+  · intro i; rw [hg]; simp
+  · intro i _; rw [hg]
+  · exact List.nodup_nil
+  · intro k ve hk; cases hk
+
+theorem step_tail {P : Sketch → Prop} (r : SState × Obs) (hc : TopCore P r.1)
+    (hf : r.1.fault = none ∨ r.1.fault = some .hang) (ho : okObs r.2 = true) :
+    TopCore P (match r.1.fault with | some f => (r.1, Obs.panic f) | none => r).1 ∧
+      ((match r.1.fault with | some f => (r.1, Obs.panic f) | none => r).1.fault = none ∨
+       (match r.1.fault with | some f => (r.1, Obs.panic f) | none => r).1.fault = some .hang) ∧
+      okObs (match r.1.fault with | some f => (r.1, Obs.panic f) | none => r).2 = true := by
+  rcases hf with hf | hf
+  · rw [hf]; exact ⟨hc, Or.inl hf, ho⟩
+  · rw [hf]; exact ⟨hc, Or.inr hf, rfl⟩
+
+theorem step_inv {P : Sketch → Prop} (L : SketchLaws P) {p : Params} (hq : NoQuirks p)
+    (hsm : SmallSketch p) {s : SState} (h : TopInv P s) (op : Op) :
+    TopCore P (step p s op).1 ∧
+      ((step p s op).1.fault = none ∨ (step p s op).1.fault = some .hang) ∧
+      okObs (step p s op).2 = true := by
+  have hnf : ¬ s.fault.isSome = true := by rw [h.nofault]; simp
+  unfold step
+  rw [if_neg hnf]
+  cases op with
+  | ins k v =>
+    have := insert_inv L hq hsm h k v
+    exact step_tail (insert p s k v, .ok) this.1 this.2 rfl
+  | get k =>
+    have := get_inv L hq hsm h k
+    exact step_tail ((get p s k).1, .val (get p s k).2) this.toTopCore (Or.inl this.nofault) rfl
+  | has k => exact step_tail (s, _) h.toTopCore (Or.inl h.nofault) rfl
+  | iter => exact step_tail (s, _) h.toTopCore (Or.inl h.nofault) rfl
+  | inv k =>
+    have := invalidate_inv L hq hsm h k
+    exact step_tail (invalidate p s k, .ok) this.1 this.2 rfl
+  | invAll =>
+    have : TopInv P (invalidateAll s) := h.of_eq rfl rfl rfl rfl rfl rfl rfl rfl rfl
+    exact step_tail (invalidateAll s, .ok) this.toTopCore (Or.inl this.nofault) rfl
+  | invIf _ => exact step_tail (s, _) h.toTopCore (Or.inl h.nofault) rfl
+  | sync =>
+    have := syncRun_inv L hq hsm h
+    exact step_tail (syncRun p s, .ok) this.toTopCore (Or.inl this.nofault) rfl
+  | adv d =>
+    have : TopInv P { s with now := s.now + d } := h.of_eq rfl rfl rfl rfl rfl rfl rfl rfl rfl
+    exact step_tail (_, .ok) this.toTopCore (Or.inl this.nofault) rfl
+  | snap => exact step_tail (s, _) h.toTopCore (Or.inl h.nofault) rfl
+  | freq k => exact step_tail (s, _) h.toTopCore (Or.inl h.nofault) rfl
+
+theorem step_faulty {p : Params} {s : SState} (hf : s.fault.isSome = true) (op : Op) :
+    step p s op = (s, .badOp) := by
+  unfold step; rw [if_pos hf]
+
+theorem run_all {P : Sketch → Prop} (L : SketchLaws P) {p : Params} (hq : NoQuirks p)
+    (hsm : SmallSketch p) : ∀ (h : List Op) (s : SState),
+      (TopInv P s ∨ s.fault.isSome = true) → noPanicButHang (run p s h) = true := by
+  intro h
+  induction h with
+  | nil => intro s _; rfl
+  | cons op rest ih =>
+    intro s hs
+    simp only [noPanicButHang, run, List.all_cons, Bool.and_eq_true]
+    rcases hs with hs | hs
+    · obtain ⟨h1, h2, h3⟩ := step_inv L hq hsm hs op
+      refine ⟨h3, ih _ ?_⟩
+      rcases h2 with h2 | h2
+      · exact Or.inl ⟨h1, h2⟩
+      · exact Or.inr (by rw [h2]; rfl)
+    · rw [step_faulty hs]
+      exact ⟨rfl, ih _ (Or.inr hs)⟩
+
+/-- The state after a history. -/
+def finalState (p : Params) : SState → List Op → SState
+  | s, [] => s
+  | s, op :: rest => finalState p (step p s op).1 rest
+
+theorem finalState_core {P : Sketch → Prop} (L : SketchLaws P) {p : Params} (hq : NoQuirks p)
+    (hsm : SmallSketch p) : ∀ (h : List Op) (s : SState), TopCore P s →
+      (s.fault = none ∨ s.fault = some .hang) →
+      TopCore P (finalState p s h) ∧
+        ((finalState p s h).fault = none ∨ (finalState p s h).fault = some .hang) := by
+  intro h
+  induction h with
+  | nil => intro s hc hf; exact ⟨hc, hf⟩
+  | cons op rest ih =>
+    intro s hc hf
+    rw [finalState]
+    rcases hf with hf | hf
+    · obtain ⟨h1, h2, _⟩ := step_inv L hq hsm ⟨hc, hf⟩ op
+      exact ih _ h1 h2
+    · rw [step_faulty (by rw [hf]; rfl)]
+      exact ih _ hc (Or.inr hf)
+
 end Sync
 end MiniMoka
